@@ -7,19 +7,19 @@ EXPECT_BUCKETS = [
     "al-cmp-eq", "al-cmp-ge", "al-cmp-le", "al-eq", "al-len-ge-256", "al-noattr", "ar-inc-hi-above1", "ar-inc-hi-eq",
     "ar-inc-inverted", "ar-inc-lo-below1", "ar-inc-lo-eq", "ar-inc-point", "ar-inc-subject-empty", "ar-left-hi-above1",
     "ar-left-hi-eq", "ar-left-inverted", "ar-left-lo-below1", "ar-left-lo-eq", "ar-left-point", "ar-left-subject-empty",
-    "ar-only-hi-above1", "ar-only-hi-eq", "ar-only-inverted", "ar-only-len1", "ar-only-len2", "ar-only-lo-below1",
-    "ar-only-lo-eq", "ar-only-point", "ar-only-subject-empty", "ar-orig-hi-above1", "ar-orig-hi-eq", "ar-orig-inverted",
-    "ar-orig-lo-below1", "ar-orig-lo-eq", "ar-orig-point", "ar-orig-subject-empty", "as-all-mixed", "as-inc-above1",
-    "as-inc-below1", "as-inc-eq", "as-inc-subject-empty", "as-left-above1", "as-left-below1", "as-left-eq",
-    "as-left-subject-empty", "as-no-policies", "as-noattr", "as-only-above1", "as-only-below1", "as-only-eq", "as-only-len1",
-    "as-only-len2", "as-only-subject-empty", "as-orig-above1", "as-orig-below1", "as-orig-eq", "as-orig-subject-empty",
-    "as-over-existing-invalid", "as-over-existing-ok", "as-set-has-regex", "asg-needs-rpki", "asg-no-policies",
-    "asg-policy-no-statements", "ca-add", "ca-existing-none", "ca-list-empty", "ca-remove", "ca-replace", "ca-result-empty",
-    "ca-result-gt255B", "cc-above1", "cc-below1", "cc-cmp-eq", "cc-cmp-ge", "cc-cmp-le", "cc-eq", "cs-comm-all-every",
-    "cs-comm-all-mixed", "cs-comm-route-has-none", "cs-ext-all-mixed", "cs-ext-route-has-none", "cs-large-all-mixed",
-    "cs-large-route-has-none", "d-override-and-global-export", "d-override-v6-peer", "dop-asgadd-global-invalid",
-    "dop-asgadd-global-ok", "dop-asgadd-peer-accumulate-invalid", "dop-asgadd-peer-accumulate-ok", "dop-asgadd-peer-invalid",
-    "dop-asgadd-peer-ok", "dop-asgadd-unknown-peer", "dop-asgdel-global-all-ok", "dop-asgdel-global-partial-notfound",
+    "ar-only-hi-eq", "ar-only-inverted", "ar-only-len1", "ar-only-len2", "ar-only-lo-below1", "ar-only-lo-eq",
+    "ar-only-point", "ar-only-subject-empty", "ar-orig-hi-above1", "ar-orig-hi-eq", "ar-orig-inverted", "ar-orig-lo-below1",
+    "ar-orig-lo-eq", "ar-orig-point", "ar-orig-subject-empty", "as-all-mixed", "as-inc-above1", "as-inc-below1", "as-inc-eq",
+    "as-inc-subject-empty", "as-left-below1", "as-left-eq", "as-left-subject-empty", "as-no-policies", "as-noattr",
+    "as-only-above1", "as-only-below1", "as-only-eq", "as-only-len1", "as-only-len2", "as-only-subject-empty",
+    "as-orig-above1", "as-orig-below1", "as-orig-eq", "as-orig-subject-empty", "as-over-existing-invalid",
+    "as-over-existing-ok", "as-set-has-regex", "asg-needs-rpki", "asg-no-policies", "asg-policy-no-statements", "ca-add",
+    "ca-existing-none", "ca-list-empty", "ca-remove", "ca-replace", "ca-result-empty", "ca-result-gt255B", "cc-above1",
+    "cc-below1", "cc-cmp-eq", "cc-cmp-ge", "cc-cmp-le", "cc-eq", "cs-comm-all-every", "cs-comm-all-mixed",
+    "cs-comm-route-has-none", "cs-ext-all-mixed", "cs-ext-route-has-none", "cs-large-all-mixed", "cs-large-route-has-none",
+    "d-override-and-global-export", "d-override-v6-peer", "dop-asgadd-global-invalid", "dop-asgadd-global-ok",
+    "dop-asgadd-peer-accumulate-invalid", "dop-asgadd-peer-accumulate-ok", "dop-asgadd-peer-invalid", "dop-asgadd-peer-ok",
+    "dop-asgadd-unknown-peer", "dop-asgdel-global-all-ok", "dop-asgdel-global-partial-notfound",
     "dop-asgdel-global-partial-ok", "dop-asgdel-peer-all-invalid", "dop-asgdel-peer-all-ok",
     "dop-asgdel-peer-partial-invalid", "dop-asgdel-peer-partial-notfound", "dop-asgdel-peer-partial-ok",
     "dop-asgset-global-invalid", "dop-asgset-global-ok", "dop-asgset-peer-invalid", "dop-asgset-peer-ok",
@@ -29,17 +29,17 @@ EXPECT_BUCKETS = [
     "dop-poladd-invalid", "dop-poladd-ok", "dop-poladd-peer-referenced", "dop-poldel-inuse", "dop-poldel-notfound",
     "dop-poldel-ok", "dop-poldel-peer-referenced", "dop-setpolicies-clears-override-invalid",
     "dop-setpolicies-clears-override-ok", "dop-setpolicies-invalid", "dop-setpolicies-ok", "ea-add", "ea-existing-none",
-    "ea-list-empty", "ea-remove", "ea-replace", "ea-result-empty", "ea-result-gt255B", "ex-encap", "ex-lb", "ex-other",
-    "ex-rt2", "ex-rt4", "ex-rtip", "ex-soo2", "ex-soo4", "ex-sooip", "ex-validation", "ex-validation-unknown", "la-add",
-    "la-existing-none", "la-list-empty", "la-remove", "la-replace", "la-result-empty", "la-result-gt255B", "lp-above1",
-    "lp-absent", "lp-absent-vs-0", "lp-below1", "lp-eq", "lp-present-0", "lpa-0", "lpa-max", "md-absent", "md-sum-0",
-    "md-sum-m1", "md-sum-max", "md-sum-max1", "md-v-0", "md-v-i32max", "md-v-i32max1", "md-v-i32min", "md-v-i32min1",
-    "md-v-i64max", "md-v-i64min", "md-v-wide", "me-above1", "me-absent", "me-absent-vs-0", "me-below1", "me-eq",
-    "me-present-0", "mr-0", "mr-max", "mr-max1", "mr-neg", "mr-wide", "name-shared-other-kind-inuse-inuse",
+    "ea-list-empty", "ea-remove", "ea-replace", "ea-result-empty", "ex-encap", "ex-lb", "ex-other", "ex-rt2", "ex-rt4",
+    "ex-rtip", "ex-soo2", "ex-soo4", "ex-sooip", "ex-validation", "ex-validation-unknown", "la-add", "la-existing-none",
+    "la-list-empty", "la-remove", "la-replace", "la-result-empty", "la-result-gt255B", "lp-above1", "lp-absent",
+    "lp-absent-vs-0", "lp-below1", "lp-eq", "lp-present-0", "lpa-0", "lpa-max", "md-absent", "md-sum-0", "md-sum-m1",
+    "md-sum-max", "md-sum-max1", "md-v-0", "md-v-i32max", "md-v-i32max1", "md-v-i32min", "md-v-i32min1", "md-v-i64max",
+    "md-v-i64min", "md-v-wide", "me-above1", "me-absent", "me-absent-vs-0", "me-below1", "me-eq", "me-present-0", "mr-0",
+    "mr-max", "mr-max1", "mr-neg", "mr-wide", "name-shared-other-kind-inuse-inuse", "name-shared-other-kind-inuse-invalid",
     "name-shared-other-kind-inuse-notfound", "name-shared-other-kind-inuse-ok", "nb-after", "nb-before", "nb-fam-mismatch",
     "nb-first", "nb-host-net", "nb-last", "nb-zero-net", "nh-none", "nha-addr4", "nha-peer4", "nha-peer6", "nha-self4",
-    "nha-self6", "nha-unchanged-some", "nhc-fam-mismatch", "nhc-hit", "nhc-miss", "nhc-none", "oa-0", "oa-1", "oa-2",
-    "oa-out-of-range", "op-asgadd-invalid", "op-asgadd-ok", "op-asgdel-all-ok", "op-asgdel-partial-notfound",
+    "nha-self6", "nha-unchanged-none", "nha-unchanged-some", "nhc-fam-mismatch", "nhc-hit", "nhc-miss", "nhc-none", "oa-0",
+    "oa-1", "oa-2", "oa-out-of-range", "op-asgadd-invalid", "op-asgadd-ok", "op-asgdel-all-ok", "op-asgdel-partial-notfound",
     "op-asgdel-partial-ok", "op-asgset-invalid", "op-asgset-ok", "op-poladd-inuse", "op-poladd-invalid", "op-poladd-ok",
     "op-poldel-all-cleanup-inuse", "op-poldel-all-cleanup-notfound", "op-poldel-all-cleanup-ok",
     "op-poldel-all-preserve-inuse", "op-poldel-all-preserve-notfound", "op-poldel-all-preserve-ok",
@@ -51,49 +51,51 @@ EXPECT_BUCKETS = [
     "op-setadd-neighbor-invalid", "op-setadd-neighbor-ok", "op-setadd-prefix-inuse", "op-setadd-prefix-invalid",
     "op-setadd-prefix-ok", "op-setdel-aspath-all-inuse", "op-setdel-aspath-all-notfound", "op-setdel-aspath-all-ok",
     "op-setdel-aspath-partial-inuse", "op-setdel-aspath-partial-invalid", "op-setdel-aspath-partial-notfound",
-    "op-setdel-aspath-partial-ok", "op-setdel-comm-all-inuse", "op-setdel-comm-all-notfound", "op-setdel-comm-all-ok",
-    "op-setdel-comm-partial-inuse", "op-setdel-comm-partial-invalid", "op-setdel-comm-partial-notfound",
-    "op-setdel-comm-partial-ok", "op-setdel-ext-all-inuse", "op-setdel-ext-all-notfound", "op-setdel-ext-all-ok",
-    "op-setdel-ext-partial-inuse", "op-setdel-ext-partial-invalid", "op-setdel-ext-partial-notfound",
-    "op-setdel-ext-partial-ok", "op-setdel-large-all-inuse", "op-setdel-large-all-notfound", "op-setdel-large-all-ok",
-    "op-setdel-large-partial-inuse", "op-setdel-large-partial-invalid", "op-setdel-large-partial-notfound",
-    "op-setdel-large-partial-ok", "op-setdel-neighbor-all-inuse", "op-setdel-neighbor-all-notfound",
-    "op-setdel-neighbor-all-ok", "op-setdel-neighbor-partial-inuse", "op-setdel-neighbor-partial-notfound",
+    "op-setdel-aspath-partial-ok", "op-setdel-comm-all-notfound", "op-setdel-comm-all-ok", "op-setdel-comm-partial-inuse",
+    "op-setdel-comm-partial-invalid", "op-setdel-comm-partial-notfound", "op-setdel-comm-partial-ok",
+    "op-setdel-ext-all-inuse", "op-setdel-ext-all-notfound", "op-setdel-ext-all-ok", "op-setdel-ext-partial-inuse",
+    "op-setdel-ext-partial-invalid", "op-setdel-ext-partial-notfound", "op-setdel-ext-partial-ok",
+    "op-setdel-large-all-inuse", "op-setdel-large-all-notfound", "op-setdel-large-all-ok", "op-setdel-large-partial-inuse",
+    "op-setdel-large-partial-invalid", "op-setdel-large-partial-notfound", "op-setdel-large-partial-ok",
+    "op-setdel-neighbor-all-inuse", "op-setdel-neighbor-all-notfound", "op-setdel-neighbor-all-ok",
+    "op-setdel-neighbor-partial-inuse", "op-setdel-neighbor-partial-invalid", "op-setdel-neighbor-partial-notfound",
     "op-setdel-neighbor-partial-ok", "op-setdel-prefix-all-inuse", "op-setdel-prefix-all-notfound",
-    "op-setdel-prefix-all-ok", "op-setdel-prefix-partial-inuse", "op-setdel-prefix-partial-notfound",
-    "op-setdel-prefix-partial-ok", "op-setreplace-aspath-inuse", "op-setreplace-aspath-invalid", "op-setreplace-aspath-ok",
-    "op-setreplace-comm-inuse", "op-setreplace-comm-invalid", "op-setreplace-comm-ok", "op-setreplace-ext-inuse",
-    "op-setreplace-ext-invalid", "op-setreplace-ext-ok", "op-setreplace-large-inuse", "op-setreplace-large-invalid",
-    "op-setreplace-large-ok", "op-setreplace-neighbor-inuse", "op-setreplace-neighbor-invalid", "op-setreplace-neighbor-ok",
-    "op-setreplace-prefix-inuse", "op-setreplace-prefix-invalid", "op-setreplace-prefix-ok", "op-stmtadd-inuse",
-    "op-stmtadd-invalid", "op-stmtadd-ok", "op-stmtdel-all-inuse", "op-stmtdel-all-notfound", "op-stmtdel-all-ok",
-    "op-stmtdel-partial-inuse", "op-stmtdel-partial-invalid", "op-stmtdel-partial-notfound", "op-stmtdel-partial-ok",
-    "opt-aspath-all", "opt-aspath-any", "opt-aspath-invert", "opt-comm-all", "opt-comm-any", "opt-comm-invert",
-    "opt-ext-all", "opt-ext-any", "opt-ext-invert", "opt-large-all", "opt-large-any", "opt-large-invert", "opt-neighbor-any",
-    "opt-neighbor-invert", "opt-prefix-any", "opt-prefix-invert", "or-above1", "or-absent", "or-absent-vs-0", "or-below1",
-    "or-cond-out-of-range", "or-eq", "or-present-0", "origin-absent", "pa-append-inuse", "pa-append-invalid", "pa-append-ok",
-    "pa-no-statements", "path-absent", "path-empty", "path-first-seg-empty", "path-flat-empty", "path-has-confed-seq",
-    "path-has-confed-set", "path-has-set", "path-seg-254", "path-seg-255", "pe4-hi-above1", "pe4-hi-below1", "pe4-hi-eq",
-    "pe4-hi-gt-width", "pe4-len-above1", "pe4-len-below1", "pe4-len-eq", "pe4-lo-above1", "pe4-lo-below1", "pe4-lo-eq",
-    "pe4-lo-lt-len", "pe4-longer-inrange", "pe4-nested", "pe4-nested-longest-out", "pe4-range-inverted", "pe6-hi-above1",
-    "pe6-hi-below1", "pe6-hi-eq", "pe6-hi-gt-width", "pe6-len-above1", "pe6-len-below1", "pe6-len-eq", "pe6-lo-above1",
-    "pe6-lo-below1", "pe6-lo-eq", "pe6-lo-lt-len", "pe6-longer-inrange", "pe6-nested", "pe6-nested-longest-out",
-    "pe6-range-inverted", "pn4-mask-0", "pn4-mask-max", "pn6-mask-0", "pn6-mask-max", "pp-confed", "pp-cross-by1",
-    "pp-empty-path", "pp-fill-255", "pp-first-full", "pp-first-othertype", "pp-lm", "pp-lm-empty-path",
-    "pp-lm-first-seg-empty", "pp-lm-flat-empty", "pp-noattr", "pp-rep0", "pp-rep1", "pz4-hi-above1", "pz4-hi-below1",
-    "pz4-hi-eq", "pz4-lo-above1", "pz4-lo-below1", "pz4-lo-eq", "pz6-hi-above1", "pz6-hi-below1", "pz6-hi-eq",
-    "pz6-lo-above1", "pz6-lo-below1", "pz6-lo-eq", "rp-eq", "rp-ne", "rp-none", "rpki-invalid", "rpki-none", "rpki-notfound",
-    "rpki-valid", "rt-asn-eq", "rt-asn-ne", "rt-src-local", "sa-existing-inuse", "sa-merge-aspath-invalid",
-    "sa-merge-aspath-ok", "sa-merge-comm-invalid", "sa-merge-comm-ok", "sa-merge-ext-invalid", "sa-merge-ext-ok",
-    "sa-merge-large-invalid", "sa-merge-large-ok", "sa-merge-neighbor-ok", "sa-merge-prefix-invalid", "sa-merge-prefix-ok",
-    "sa-no-elems-inuse", "sa-no-elems-invalid", "sa-no-elems-ok", "sd-partial-aspath-regex", "sd-partial-comm",
-    "sd-partial-ext", "sd-partial-large", "sd-partial-nbr", "sd-partial-nbr-missing", "sd-partial-pfx-missing",
-    "sd-partial-pfx-other-range", "sd-partial-pfx4", "sd-partial-pfx6", "sd-partial-single", "sd-partial-single-missing",
-    "sd-partial-to-empty", "sd-partial-zero4", "sd-partial-zero4-missing", "sd-partial-zero6", "sd-partial-zero6-missing",
-    "sr-existing-inuse", "sr-existing-unref-invalid", "sr-existing-unref-ok", "sr-fresh-invalid", "sr-fresh-ok", "src-local",
-    "st-merge-inuse", "st-merge-invalid", "st-merge-ok", "wk-accept-own", "wk-blackhole", "wk-graceful-shutdown",
-    "wk-llgr-stale", "wk-mixed-case", "wk-no-advertise", "wk-no-export", "wk-no-export-subconfed", "wk-no-llgr",
-    "wk-no-peer",
+    "op-setdel-prefix-all-ok", "op-setdel-prefix-partial-inuse", "op-setdel-prefix-partial-invalid",
+    "op-setdel-prefix-partial-notfound", "op-setdel-prefix-partial-ok", "op-setreplace-aspath-inuse",
+    "op-setreplace-aspath-invalid", "op-setreplace-aspath-ok", "op-setreplace-comm-inuse", "op-setreplace-comm-invalid",
+    "op-setreplace-comm-ok", "op-setreplace-ext-inuse", "op-setreplace-ext-invalid", "op-setreplace-ext-ok",
+    "op-setreplace-large-inuse", "op-setreplace-large-invalid", "op-setreplace-large-ok", "op-setreplace-neighbor-inuse",
+    "op-setreplace-neighbor-invalid", "op-setreplace-neighbor-ok", "op-setreplace-prefix-inuse",
+    "op-setreplace-prefix-invalid", "op-setreplace-prefix-ok", "op-stmtadd-inuse", "op-stmtadd-invalid", "op-stmtadd-ok",
+    "op-stmtdel-all-inuse", "op-stmtdel-all-notfound", "op-stmtdel-all-ok", "op-stmtdel-partial-inuse",
+    "op-stmtdel-partial-invalid", "op-stmtdel-partial-notfound", "op-stmtdel-partial-ok", "opt-aspath-all", "opt-aspath-any",
+    "opt-aspath-invert", "opt-comm-all", "opt-comm-any", "opt-comm-invert", "opt-ext-all", "opt-ext-any", "opt-ext-invert",
+    "opt-large-all", "opt-large-any", "opt-large-invert", "opt-neighbor-any", "opt-neighbor-invert", "opt-prefix-any",
+    "opt-prefix-invert", "or-above1", "or-absent", "or-absent-vs-0", "or-below1", "or-cond-out-of-range", "or-eq",
+    "or-present-0", "origin-absent", "pa-append-inuse", "pa-append-invalid", "pa-append-ok", "pa-no-statements",
+    "path-absent", "path-empty", "path-first-seg-empty", "path-flat-empty", "path-has-confed-seq", "path-has-confed-set",
+    "path-has-set", "path-seg-254", "path-seg-255", "pe4-hi-above1", "pe4-hi-below1", "pe4-hi-eq", "pe4-hi-gt-width",
+    "pe4-len-above1", "pe4-len-below1", "pe4-len-eq", "pe4-lo-above1", "pe4-lo-below1", "pe4-lo-eq", "pe4-lo-lt-len",
+    "pe4-longer-inrange", "pe4-nested", "pe4-nested-longest-out", "pe4-range-inverted", "pe6-hi-above1", "pe6-hi-below1",
+    "pe6-hi-eq", "pe6-hi-gt-width", "pe6-len-above1", "pe6-len-below1", "pe6-len-eq", "pe6-lo-above1", "pe6-lo-below1",
+    "pe6-lo-eq", "pe6-lo-lt-len", "pe6-longer-inrange", "pe6-nested", "pe6-nested-longest-out", "pe6-range-inverted",
+    "pn4-mask-0", "pn4-mask-max", "pn6-mask-0", "pn6-mask-max", "pp-confed", "pp-cross-by1", "pp-empty-path", "pp-fill-255",
+    "pp-first-full", "pp-first-othertype", "pp-lm", "pp-lm-empty-path", "pp-lm-first-seg-empty", "pp-lm-flat-empty",
+    "pp-noattr", "pp-rep0", "pp-rep1", "pz4-hi-above1", "pz4-hi-below1", "pz4-hi-eq", "pz4-lo-above1", "pz4-lo-below1",
+    "pz4-lo-eq", "pz6-hi-above1", "pz6-hi-below1", "pz6-hi-eq", "pz6-lo-above1", "pz6-lo-eq", "raw-after-good-elements",
+    "raw-first-of-many", "raw-setadd-invalid", "raw-setadd-set-existed", "raw-setdel-partial-invalid",
+    "raw-setdel-partial-set-existed", "raw-setreplace-invalid", "raw-setreplace-set-existed", "rp-eq", "rp-ne", "rp-none",
+    "rpki-invalid", "rpki-none", "rpki-notfound", "rpki-valid", "rt-asn-eq", "rt-asn-ne", "rt-src-local",
+    "sa-existing-inuse", "sa-merge-aspath-invalid", "sa-merge-aspath-ok", "sa-merge-comm-invalid", "sa-merge-comm-ok",
+    "sa-merge-ext-invalid", "sa-merge-ext-ok", "sa-merge-large-invalid", "sa-merge-large-ok", "sa-merge-neighbor-invalid",
+    "sa-merge-neighbor-ok", "sa-merge-prefix-invalid", "sa-merge-prefix-ok", "sa-no-elems-inuse", "sa-no-elems-invalid",
+    "sa-no-elems-ok", "sd-partial-aspath-regex", "sd-partial-comm", "sd-partial-ext", "sd-partial-large", "sd-partial-nbr",
+    "sd-partial-nbr-missing", "sd-partial-pfx-missing", "sd-partial-pfx-other-range", "sd-partial-pfx4", "sd-partial-pfx6",
+    "sd-partial-single", "sd-partial-single-missing", "sd-partial-to-empty", "sd-partial-zero4", "sd-partial-zero4-missing",
+    "sd-partial-zero6", "sd-partial-zero6-missing", "sr-existing-inuse", "sr-existing-unref-invalid", "sr-existing-unref-ok",
+    "sr-fresh-invalid", "sr-fresh-ok", "src-local", "st-merge-inuse", "st-merge-invalid", "st-merge-ok", "wk-accept-own",
+    "wk-blackhole", "wk-graceful-shutdown", "wk-llgr-stale", "wk-mixed-case", "wk-no-advertise", "wk-no-export",
+    "wk-no-export-subconfed", "wk-no-llgr", "wk-no-peer",
 ]
 
 CONFIG = dict(
@@ -114,9 +116,9 @@ CONFIG = dict(
     level_note="Trusted: Lean kernel; axioms propext/Classical.choice/Quot.sound (decide +kernel for closed examples, no "
                "native_decide); the hand-written model (checked only by the correspondence stream); harness glue (case decoding, "
                "UPDATE framing of probe attributes, RPKI table construction, listing dump).  Uninterpreted in every theorem: the "
-               "regex engine and ext-community text form (RegexEnv).  Master theorem is `_partial` in two explicit hypotheses: no "
-               "free-form AS-path pattern (known finding F14-aspath-regex-ignored, refuted in full by C14_full_refuted) and no "
-               "well-known community NAME (case folding; correspondence only).  Modelled, not verified: see modelled_not_verified.",
+               "regex engine and ext-community text form (RegexEnv).  Master theorem is `_partial` in ONE explicit hypothesis: no "
+               "free-form AS-path pattern (known finding F14-aspath-regex-ignored, refuted in full by C14_full_refuted).  Well-known "
+               "community names (any letter case) are inside the theorem since wave 7.  Modelled, not verified: see modelled_not_verified.",
     lean_modules=["Rbgp.Policy.Props"],
     theorems=[
         "Rbgp.Policy.Props.eval_eq_reference",
@@ -133,6 +135,8 @@ CONFIG = dict(
         "Rbgp.Policy.Props.crud_ref_closed",
         "Rbgp.Policy.Props.in_use_not_deleted",
         "Rbgp.Policy.Props.referenced_unchanged",
+        "Rbgp.Policy.Props.wellknown_community_value",
+        "Rbgp.Policy.Props.wellknown_community_stored",
         "Rbgp.Policy.Props.request_stored",
         "Rbgp.Policy.Props.no_stale_objects",
         "Rbgp.Policy.Props.holders_ref_closed",
@@ -143,9 +147,20 @@ CONFIG = dict(
     ],
     harness=dict(kind="daemon", test="event::verif_event::c14::verif_main"),
     profiles=["debug"],
-    n_quick=2400, n_thorough=120000, shards=12,
+    n_quick=3200, n_thorough=120000, shards=12,
     nontrivial_re=r"\(r (accept|reject|pass) \(|\(r reject|\(err inuse\)|panic",
-    rule="cases = (probe routes, CRUD call sequence).  Routes: IPv4/IPv6 prefixes nested in / disjoint from the set entries, "
+    rule="EVERY quick run hits each bucket of EXPECT_BUCKETS (lean/Rbgp/Policy/Stats.lean, counted per case in "
+         "coverage.oracle_clause_counts; a zero is listed in coverage_gaps): every comparison of the anchored functions exactly on and one "
+         "off its boundary (route length vs entry length / range min / range max for both families and the 0/0 slots, entry one bit longer "
+         "than the route, nested entries that disagree, AS number vs range bounds at first / last / any position, path length and community "
+         "count vs operand, LOCAL_PREF / MED / ORIGIN present-0 vs absent, neighbor first / last / next address), every width switch of the "
+         "MED arithmetic (i32, u32, i64 limits and sums landing on 0, -1, u32::MAX, u32::MAX+1), prepend filling a segment to exactly 255 / "
+         "one past, every well-known name in two spellings, every ext-community text form incl. 4-octet / IPv4 site-of-origin and link "
+         "bandwidth, list payloads crossing 255 octets, absent ORIGIN / AS_PATH, every (call kind x result) incl. partial deletes of the 0/0 "
+         "and IPv6 entries, a name shared by sets of different kinds, merges and deletes that fail half way through their element list.  "
+         "One case in four is PINNED: one set member (or one plain condition), one statement, one probe built on / next to that member's "
+         "boundary, so the boundary alone decides the disposition.  "
+         "cases = (probe routes, CRUD call sequence).  Routes: IPv4/IPv6 prefixes nested in / disjoint from the set entries, "
          "attribute vectors pushed through the real UPDATE decoder (ORIGIN, AS_PATH of every segment type incl. empty segments, "
          "255-member segments, MED, LOCAL_PREF, COMMUNITY, EXT/LARGE communities, unknown optional transitive), local/iBGP/eBGP "
          "sources, RPKI state none/not-found/valid/invalid.  Calls: add/replace/delete(all|partial) on the six set kinds with "
@@ -174,29 +189,37 @@ CONFIG = dict(
                   "RegexEnv (regex crate, ext_community_to_string) is an uninterpreted parameter of every theorem; the driver runs "
                   "with a small engine (literals . \\d * + ^ $) from which the generator draws its patterns"],
     modelled_not_verified=[
-        "daemon level: AddDefinedSet(replace)/DeleteDefinedSet always, AddStatement/DeleteStatement whenever the statement can be "
-        "said in an api::Statement (about 3 of 4 generated ones; everything but ext-community actions, `pass`, repeated or "
-        "out-of-message-order condition kinds), SetPolicyAssignment, SetPolicies and DeletePeer go through the real GrpcService "
-        "handlers and convert.rs; add/delete policy, add/delete assignment, add_peer through the real Global wrappers.  The "
-        "harness speaks the enum numbering the converters implement (MatchSet.type and Comparison read as 0/1/2 although "
-        "gobgp.proto numbers them 1/2/3 after UNSPECIFIED=0 — reported to the API-conversion property, not judged here)",
+        "daemon level: every policy call goes through the real GrpcService handler and convert.rs — AddDefinedSet(replace) / "
+        "DeleteDefinedSet, AddPolicy / DeletePolicy, AddPolicyAssignment / DeletePolicyAssignment / SetPolicyAssignment, SetPolicies, "
+        "DeletePeer always; AddStatement / DeleteStatement whenever the statement can be said in an api::Statement (about 3 of 4 "
+        "generated ones; everything but ext-community actions, `pass`, repeated or out-of-message-order condition kinds; the rest is "
+        "called on global.ptable as the handler does after conversion).  Peers are created by Global::add_peer from the PeerParams "
+        "the real configuration path yields (TOML text -> config::Neighbor -> PeerParams::try_from, incl. apply-policy.config "
+        "export-policy-list / default-export-policy; a `pass` default cannot be said there and is built directly); the gRPC AddPeer "
+        "is not used (it would start connecting).  The harness speaks the enum numbering the converters implement (MatchSet.type "
+        "and Comparison read as 0/1/2 although gobgp.proto numbers them 1/2/3 after UNSPECIFIED=0 — reported to the API-conversion "
+        "property, not judged here)",
         "the gates and argument choices of the session path are NOT executed: probes call table::apply_import/apply_export with the "
         "holder's assignment and the case's arguments; `.filter(|p| p.needs_rpki)` + override-else-global selection in "
         "handle_prefix_update (event/mod.rs) and the arguments built in export.rs (pre_policy_defaults, original_nexthop, "
         "confed flag, local/remote address) need the export model of C09/C01 to predict.  What IS judged: the needs_rpki flag "
         "every holder's assignment carries against the rpki conditions of the statements its names resolve to",
-        "apply_config / load_policy_from_config, peer groups and dynamic peers are not exercised; the lock-free readers of the "
-        "ArcSwap holders (peer tasks) are not modelled — calls are sequential",
+        "apply_config's loader of defined-sets / policy-definitions (load_policy_from_config), peer groups and dynamic peers are not "
+        "exercised (the neighbor part of the configuration conversion is); the lock-free readers of the ArcSwap holders (peer "
+        "tasks) are not modelled — calls are sequential",
         "free-form AS-path regex members: the reference consults them, the code does not (open finding F14-aspath-regex-ignored); "
         "excluded from the master theorem by the explicit hypothesis Op.noAsRegex",
-        "well-known community names in parse_community (to_lowercase + table lookup): correspondence only (hypothesis Op.noWellKnown)",
         "RpkiTable::validate: its result is an input of the model (C12 owns the classification)",
         "IpLookupTable (treebitmap) modelled as a keyed list; prefix-set and neighbor-set elements are generated without host bits "
         "(the crate asserts on host bits: add_defined_set/delete_defined_set panic on e.g. 10.0.0.16/24 — configuration-time, outside the statement)",
         "IpNet::contains modelled as CIDR containment for nets without host bits",
         "non-unicast NLRI (VPN, labeled, flowspec, EVPN, ...): Prefix condition is false for them whatever the option; AfiSafiIn only exercised for IPv4/IPv6 unicast",
         "attribute values the API can build that the decoder cannot (attr_from_api accepts arbitrary AS_PATH segment types / Unknown{known code}: "
-        "as_path_length then hits unreachable!()) — C17 / S27 owns that obligation; probes here are decoder output",
+        "as_path_length then hits unreachable!()) — C17 / S27 owns that obligation; probes here are decoder output, decoder output with a "
+        "zero-count AS_PATH segment put in the API way, or decoder output minus ORIGIN / AS_PATH (a locally originated API route)",
+        "AS-path set members that look like an anchored numeric form but overflow u32 (`_4294967296_`) fall through to the free-form regex "
+        "branch (open finding F14-aspath-regex-ignored covers what happens to them); link-bandwidth extended communities only with "
+        "whole-number bandwidths below 2^24 (f32 Display is not modelled beyond that)",
         "as-prepend repeat is a u32: the loop is unbounded in practice (generated <= 300)",
         "replace_defined_set removes the old set before add_defined_set validates the new contents: a failing replace of an UNREFERENCED set deletes it (modelled as is; not a violation of the statement)"],
     assumptions=["probe attribute vectors are values Attribute::decode produces (Spec.pathOk); the reference says nothing about others"],
@@ -508,7 +531,11 @@ def gen_elem(r, kind):
 
 def gen_elems(r, kind, n=None):
     n = n if n is not None else r.pick([0, 1, 1, 2, 2, 3, 4])
-    return "(" + " ".join(gen_elem(r, kind) for _ in range(n)) + ")"
+    es = [gen_elem(r, kind) for _ in range(n)]
+    if kind in ("prefix", "neighbor") and r.chance(1, 25):
+        # a string that does not parse, somewhere in the list: the call must fail as a whole
+        es.insert(r.below(len(es) + 1), "raw")
+    return "(" + " ".join(es) + ")"
 
 
 def set_name(r, kind, free=True):
@@ -803,9 +830,9 @@ def free_set_ops(r):
     n1 = 1 + r.below(len(base) - 1)
     first, second = base[:n1], base[n1:]
     ops = ["(set-add %s %s (%s))" % (kind, name, " ".join(first)), "(set-add %s %s (%s))" % (kind, name, " ".join(second))]
-    if kind in ("aspath", "comm", "ext", "large") and r.chance(1, 3):
+    if r.chance(1, 3):
         # a merge that fails half way through its element list must leave the set as it was
-        bad = "(re *bad)" if kind == "aspath" else r.pick(COMM_BAD_PATS if kind == "comm" else ["*bad", "rt:[", "[x"])
+        bad = "raw" if kind in ("prefix", "neighbor") else "(re *bad)" if kind == "aspath" else r.pick(COMM_BAD_PATS if kind == "comm" else ["*bad", "rt:[", "[x"])
         ops.insert(1, "(set-add %s %s (%s %s))" % (kind, name, second[0], bad))
     order = list(base)
     for i in range(len(order) - 1, 0, -1):
@@ -814,9 +841,9 @@ def free_set_ops(r):
     k = 1 + r.below(2)
     ops.append("(set-del %s %s f (%s))" % (kind, name, " ".join(order[:k])))
     ops.append("(set-del %s %s f (%s))" % (kind, name, " ".join([order[0], gen_elem(r, kind)])))     # gone already / never there
-    if kind in ("aspath", "comm", "ext", "large") and r.chance(1, 2):
+    if r.chance(1, 2):
         # an element list that turns out invalid after its first member was looked at
-        bad = "(re *bad)" if kind == "aspath" else r.pick(COMM_BAD_PATS if kind == "comm" else ["*bad", "rt:[", "[x"])
+        bad = "raw" if kind in ("prefix", "neighbor") else "(re *bad)" if kind == "aspath" else r.pick(COMM_BAD_PATS if kind == "comm" else ["*bad", "rt:[", "[x"])
         ops.append("(set-del %s %s f (%s %s))" % (kind, name, order[-1], bad))
     if r.chance(1, 2):
         ops.append("(set-del %s %s f (%s))" % (kind, name, " ".join(order[k:])))                          # down to nothing
@@ -828,7 +855,7 @@ def free_set_ops(r):
 
 
 def gen_case(r, tier):
-    if r.chance(1, 5):
+    if r.chance(1, 4):
         return gen_pin_case(r)
     fl = r.below(100)
     nprobe = r.pick([2, 3, 3, 4])
